@@ -1,11 +1,11 @@
 SPECIFICATION Spec
 CONSTANTS
-  Bodies = {2, 3}
-  MaxLen = 7
-  MaxMsgs = 2
-  MaxSteps = 4
+  Bodies = {2, 3, 4, 5}
+  MaxLen = 16
+  MaxMsgs = 4
+  MaxSteps = 12
   FIXED = TRUE
-  ABORTS = FALSE
+  ABORTS = TRUE
   RESETONERR = TRUE
   EOMCTX = TRUE
   GEN = TRUE
